@@ -12,7 +12,7 @@
    space V over F).  A t-of-n split is a polynomial p with [size p <= t] (degree < t); the share
    of j is p.[x j], the secret p.[0].  All statements are for every n, t and every field. *)
 From mathcomp Require Import all_ssreflect all_algebra.
-From Charon Require Import Tbls.Shamir Tbls.ShamirZ.
+From Charon Require Import Tbls.Shamir Tbls.ShamirZ Tbls.PrimeR.
 Import GRing.Theory.
 Local Open Scope ring_scope.
 
@@ -196,3 +196,24 @@ Theorem C08_vsr_checkZ_sound :
   on_one_poly (idn (Fp_fieldType p)) (phi p dv : ('F_p)^o) (yfield p ys) (size ys) t.
 Proof. exact vsr_checkZ_sound. Qed.
 Print Assumptions C08_vsr_checkZ_sound.
+
+(* The BLS12-381 scalar field order r is prime — proved in Coq (Tbls/PrimeR.v: Lucas test with the
+   complete factorisation of r - 1, base 7, factors certified by trial division; computations on
+   binary integers by vm_compute).  Hence the two statements above hold at m = r unconditionally. *)
+Theorem C08_r_prime : prime (BinInt.Z.to_nat r).
+Proof. exact r_prime. Qed.
+Print Assumptions C08_r_prime.
+
+Theorem C08_recoverZ_split_r :
+  forall (cs ids : seq BinNums.Z), ids_okZ r ids -> (size cs <= size ids)%N ->
+  recoverZ r (zip ids (map (evalZ r cs) ids)) = redm r (head BinNums.Z0 cs).
+Proof. exact recoverZ_split_r. Qed.
+Print Assumptions C08_recoverZ_split_r.
+
+Theorem C08_vsr_checkZ_sound_r :
+  forall (dv : BinNums.Z) (ys : seq BinNums.Z) (t : nat),
+  (size ys < BinInt.Z.to_nat r)%N -> vsr_checkZ r dv ys t ->
+  on_one_poly (idn (Fp_fieldType (BinInt.Z.to_nat r))) (phi (BinInt.Z.to_nat r) dv : ('F_(BinInt.Z.to_nat r))^o)
+              (yfield (BinInt.Z.to_nat r) ys) (size ys) t.
+Proof. exact vsr_checkZ_sound_r. Qed.
+Print Assumptions C08_vsr_checkZ_sound_r.
